@@ -121,7 +121,7 @@ def validate_trace(chk, pid, trace_path, out, source, timeout):
     return nrec
 
 
-def run(pid, tier):
+def run(pid, tier, extra=None):
     chk = C.Check(pid, "model_checking", tier)
     C.build_harness()
     cfgs, ntrace, tmo = CFG[(pid, tier)]
@@ -218,8 +218,11 @@ def run(pid, tier):
         "the scripted server, the independent BER reader/writer and the mock transport of the harness are correct",
         "Tokio's current-thread scheduler and seeded select! behave as documented; the harness lets the driver task run to "
         "quiescence between polls of the call under test, so the single-caller behaviour is deterministic",
-        "timeouts of streaming searches are not part of this lane (C12/C13 cover them)",
+        "timeouts of streaming searches are not part of the sequential lane; the connection lane (timed streams, concurrent "
+        "operations) contributes the stream-protocol observables it sees",
     ]
+    if extra:
+        extra(chk)
     return chk.finish()
 
 
